@@ -823,6 +823,8 @@ class HandshakeSettings(object):
 
     def _sanity_check_implementations(self, other):
         """Remove all backends that are not loaded."""
+        # filter a copy: the list is shared with the object being validated
+        other.cipherImplementations = other.cipherImplementations[:]
         if not cryptomath.m2cryptoLoaded:
             self._remove_all_matches(other.cipherImplementations, "openssl")
         if not cryptomath.pycryptoLoaded:
